@@ -39,9 +39,18 @@ class Server:
         self.name = name
         self.dir = os.path.join(basedir, name)
         os.makedirs(self.dir, exist_ok=True)
-        self.ports = dict(zip(("http", "scgi", "fastcgi"), free_ports(3)))
         self.uploads = os.path.join(self.dir, "uploads")
         os.makedirs(self.uploads, exist_ok=True)
+        self.lock = threading.Lock()
+        last = None
+        for attempt in range(5):
+            last = self._start(exe, overrides, env)
+            if last is None:
+                return
+        raise RuntimeError("vsrv did not start: %s" % last)
+
+    def _start(self, exe, overrides, env):
+        self.ports = dict(zip(("http", "scgi", "fastcgi"), free_ports(3)))
         cfg = {
             "service": {"list": [{"api": "http", "ip": "127.0.0.1", "port": self.ports["http"]},
                                  {"api": "scgi", "ip": "127.0.0.1", "port": self.ports["scgi"]},
@@ -66,19 +75,25 @@ class Server:
             e.update(env)
         self.cmd = [exe, "--config", self.cfgfile, "--log", self.logfile]
         self.proc = subprocess.Popen(self.cmd, stdin=subprocess.PIPE, stdout=subprocess.PIPE, stderr=open(self.errfile, "wb"), env=e, cwd=self.dir)
-        self.lock = threading.Lock()
         line = self._readline(30)
         if line != "READY":
-            raise RuntimeError("vsrv did not start: %r / %s" % (line, self.stderr()[-500:]))
-        # wait until the acceptors listen
+            self.proc.kill()
+            self.proc.wait()
+            return "no READY: %r / %s" % (line, self.stderr()[-500:])
+        # wait until the acceptors listen (they bind inside service::run)
         t0 = time.time()
         while time.time() - t0 < 20:
+            if self.proc.poll() is not None:
+                return "died at start: %s" % self.stderr()[-300:]
             try:
-                s = socket.create_connection(("127.0.0.1", self.ports["http"]), timeout=1)
+                s = socket.create_connection(("127.0.0.1", self.ports["fastcgi"]), timeout=1)
                 s.close()
-                break
+                return None
             except OSError:
                 time.sleep(0.02)
+        self.proc.kill()
+        self.proc.wait()
+        return "acceptors did not come up"
 
     def _readline(self, timeout):
         r, _, _ = select.select([self.proc.stdout], [], [], timeout)
@@ -137,7 +152,7 @@ class Server:
         err = self.stderr()
         kind, key = common.sanitizer_key(err)
         if key:
-            return key, err[-3000:]
+            return key, common.sanitizer_excerpt(err)
         m = None
         for line in err.splitlines():
             if "exception escaped service::run()" in line:
